@@ -263,7 +263,7 @@ func init() {
 	})
 }
 
-func drawIntervals(rt *rapid.T, wide bool) [][2]int64 {
+func drawIntervals(rt *rapid.T, wide bool, shift int64) [][2]int64 {
 	var ivs [][2]int64
 	n := rapid.IntRange(0, 4).Draw(rt, "nintervals")
 	for i := 0; i < n; i++ {
@@ -275,7 +275,7 @@ func drawIntervals(rt *rapid.T, wide bool) [][2]int64 {
 			}
 			l = rapid.SampledFrom([]int64{0, 1, 5, 1 << 40}).Draw(rt, "iv_len")
 		} else {
-			a = rapid.Int64Range(1, 14).Draw(rt, "iv_start")
+			a = shift + rapid.Int64Range(1, 14).Draw(rt, "iv_start")
 			l = rapid.Int64Range(0, 3).Draw(rt, "iv_len")
 		}
 		b := a + l
@@ -354,9 +354,15 @@ func TestC18(t *testing.T) {
 			c.Pool = append(c.Pool, s)
 		}
 		wide := rapid.IntRange(0, 2).Draw(rt, "wide") == 0
+		// the dense window (intervals that touch, overlap and leave one-transaction gaps) also sits high up
+		// in the number range: past 2^24, 2^31, 2^32, 2^53 (where float64 stops being exact) and below 2^63
+		shift := int64(0)
+		if !wide && rapid.IntRange(0, 2).Draw(rt, "shifted") == 0 {
+			shift = rapid.SampledFrom([]int64{1 << 24, 1<<31 - 8, 1<<32 - 8, 1<<53 - 8, 1<<53 + 1<<20 + 1, 1<<62 - 9, math.MaxInt64 - 40}).Draw(rt, "shift")
+		}
 		for i := range c.Pool {
 			if rapid.Bool().Draw(rt, "start_has") {
-				c.Start[i] = drawIntervals(rt, wide)
+				c.Start[i] = drawIntervals(rt, wide, shift)
 			}
 		}
 		nops := rapid.IntRange(1, 12).Draw(rt, "nops")
@@ -365,7 +371,7 @@ func TestC18(t *testing.T) {
 			if wide {
 				op.N = rapid.SampledFrom([]int64{1, 2, 9, 11, 1<<31 - 1, 1 << 31, 1<<32 + 1, math.MaxInt64 - 21, math.MaxInt64 - 2, math.MaxInt64}).Draw(rt, "op_n")
 			} else {
-				op.N = rapid.Int64Range(1, 18).Draw(rt, "op_n")
+				op.N = shift + rapid.Int64Range(1, 18).Draw(rt, "op_n")
 			}
 			if rapid.IntRange(0, 1).Draw(rt, "op_latest") == 0 {
 				op.On = i // mostly build on the latest set
@@ -375,6 +381,9 @@ func TestC18(t *testing.T) {
 		cls := []string{fmt.Sprintf("uuids=%d", np)}
 		if wide {
 			cls = append(cls, "wide-intervals")
+		}
+		if shift != 0 {
+			cls = append(cls, "dense-window-at-large-base")
 		}
 		rec.Case(true, c, cls...)
 		rec.Sample(c)
